@@ -240,7 +240,8 @@ def run(ctx):
             pops_ = [o for o in p.ops if o.kind == 'call' and txt(o.val.func) == 'self._pop_entry']
             last_pop = pops_[-1].seq if pops_ else -1
             ts = [(t, truth) for t, truth, x in tests_on(w, p) if x.seq > last_pop]
-            live = any((t.endswith('[2] is _REMOVED') and not truth) or (t.endswith('[2] is not _REMOVED') and truth) for t, truth in ts)
+            live = any((t.endswith(('[2] is _REMOVED', '[-1] is _REMOVED')) and not truth) or
+                       (t.endswith(('[2] is not _REMOVED', '[-1] is not _REMOVED')) and truth) for t, truth in ts)
             empty = any(t in ('self._pq',) and not truth for t, truth in ts)
             n_post += 1
             ctx.ob('T9.cullpost', '%s._cull' % cls, '_cull returns only after seeing a live head (or an empty list) since its last pop',
@@ -251,8 +252,8 @@ def run(ctx):
                 if o.kind == 'call' and txt(o.val.func) == 'self._pop_entry':
                     last_iter = max([x.seq for x in p.ops if x.kind == 'loop_iter' and x.seq < o.seq] or [-1])
                     ts = [(t, truth) for t, truth, x in tests_on(w, p, upto_seq=o.seq) if x.seq > last_iter]
-                    ok = any((t.endswith('[2] is _REMOVED') and truth) or (t.endswith('[2] is not _REMOVED') and not truth)
-                             for t, truth in ts)
+                    ok = any((t.endswith(('[2] is _REMOVED', '[-1] is _REMOVED')) and truth) or
+                             (t.endswith(('[2] is not _REMOVED', '[-1] is not _REMOVED')) and not truth) for t, truth in ts)
                     ctx.ob('T9.cullonly', '%s._cull' % cls, '_cull pops an entry only when its task slot is the tombstone', ok, loc=loc(cu, o.node),
                            detail=str(ts))
         ln = prog.resolve(ci, '__len__')
@@ -288,6 +289,25 @@ def run(ctx):
                 ctx.ob('T12.layout', '%s.%s' % (BASE, name), 'entry destructuring `%s` has the 3-slot layout with the task last' % txt(t),
                        len(t.elts) == 3 and all(nm == tnames[2] for nm in in_role), loc=loc(m, n),
                        detail='names used as the task: %s' % sorted(in_role))
+        # the same layout read by index: <entry list>[0][k] used in the task role has k == 2 (or -1)
+        role = set()
+        for x in ast.walk(m.node):
+            if isinstance(x, ast.Compare) and len(x.ops) == 1 and isinstance(x.ops[0], (ast.Is, ast.IsNot)) and \
+                    '_REMOVED' in (txt(x.left), txt(x.comparators[0])):
+                role.update(txt(y) for y in (x.left, x.comparators[0]) if txt(y) != '_REMOVED')
+            if isinstance(x, ast.Subscript) and txt(x.value) == 'self._entry_map':
+                role.add(txt(x.slice))
+            if isinstance(x, ast.Return) and x.value is not None:
+                role.add(txt(x.value))
+        for n in ast.walk(m.node):
+            if isinstance(n, ast.Subscript) and isinstance(n.value, ast.Subscript) and txt(n.value.value) in (pq_alias | {'self._pq'}) \
+                    and txt(n.value.slice) == '0' and isinstance(n.ctx, ast.Load):
+                k = txt(n.slice)
+                named = {t.id for a in ast.walk(m.node) if isinstance(a, ast.Assign) and a.value is n for t in a.targets if isinstance(t, ast.Name)}
+                in_role = txt(n) in role or bool(named & role)
+                ctx.ob('T12.layout', '%s.%s' % (BASE, name), 'entry slot read `%s` follows the 3-slot layout with the task last' % txt(n),
+                       (k in ('2', '-1')) if in_role else (k in ('0', '1', '-3', '-2', '2', '-1')), loc=loc(m, n),
+                       detail='used as the task: %s' % in_role)
     # who may change the entry list: the backend hooks only (a heap popped with list.pop(0) loses its invariant)
     LIST_MUT = {'pop', 'append', 'insert', 'remove', 'extend', 'sort', 'reverse', 'clear', '__delitem__', '__setitem__'}
     n_w = 0
